@@ -4,6 +4,8 @@ import operator
 from pyasn1.codec.ber import decoder as ber_decoder
 from pyasn1.codec.ber import encoder as ber_encoder
 from pyasn1.codec.der import encoder as der_encoder
+from pyasn1.codec.cer import encoder as cer_encoder
+from pyasn1.codec.native import encoder as native_encoder
 from pyasn1.type import char, constraint, namedtype, tag, univ
 from pyasn1 import error
 
@@ -307,6 +309,15 @@ def check_ops(res, rng):
 
 # ------------------------------------------------------------------ (c) encoders refuse inconsistent constructed values
 
+def _retag(v, proto):
+    """The members of v in an object of the (tagged) type proto."""
+    o = proto.clone()
+    o.clear()
+    for m in v:
+        o.append(int(m))
+    return o
+
+
 def check_constructed(res, rng):
     lo = rng.choice([0, 1, 2])
     hi = lo + rng.choice([0, 1, 2])
@@ -315,28 +326,63 @@ def check_constructed(res, rng):
     if kind in ('seqof', 'setof'):
         cls = univ.SequenceOf if kind == 'seqof' else univ.SetOf
         typ = cls(componentType=univ.Integer()).subtype(subtypeSpec=constraint.ValueSizeConstraint(lo, hi))
+        # where the constrained value sits when the encoder meets it: on its own, or as a mandatory / OPTIONAL member,
+        # a list element, a CHOICE alternative of an enclosing value
+        place = rng.choice(['top', 'top', 'member', 'optional-member', 'set-member', 'element', 'alternative'])
+        feats = feats | {'place:' + place}
+        ctx = lambda t: t.subtype(implicitTag=tag.Tag(tag.tagClassContext, tag.tagFormatSimple, 5))
+
+        def wrap(v):
+            if place == 'top':
+                return v
+            if place in ('member', 'optional-member', 'set-member'):
+                nt = namedtype.OptionalNamedType if place == 'optional-member' else namedtype.NamedType
+                rec = (univ.Set if place == 'set-member' else univ.Sequence)(componentType=namedtype.NamedTypes(
+                    namedtype.NamedType('a', univ.Integer()), nt('x', ctx(typ))))
+                rec['a'] = 1
+                rec['x'] = _retag(v, rec.componentType['x'].asn1Object)
+                return rec
+            if place == 'element':
+                lst = univ.SequenceOf(componentType=typ)
+                lst.append(v)
+                return lst
+            ch = univ.Choice(componentType=namedtype.NamedTypes(namedtype.NamedType('x', typ), namedtype.NamedType('n', univ.Null())))
+            ch['x'] = v
+            return ch
         for n in range(0, hi + 3):
-            case = ('c14-con', kind, lo, hi, n)
+            case = ('c14-con', kind, lo, hi, n, place)
             res.case(U.case_hash(case), True)
             v = typ.clone()
             v.clear()
             for i in range(n):
                 v.append(i)
             inside = lo <= n <= hi
-            for cname, enc in (('ber', ber_encoder.encode), ('der', der_encoder.encode)):
+            try:
+                w = wrap(v)
+            except error.PyAsn1Error:
+                # the enclosing value may refuse the member on assignment already: that is a refusal too
+                res.see('constructed-refused-on-assignment' if not inside else 'constructed-assignment-refused-valid')
+                if inside:
+                    res.witness('constructed:assignment-refuses-valid', feats, case, '%d members, SIZE(%d..%d)' % (n, lo, hi))
+                continue
+            for cname, enc in (('ber', ber_encoder.encode), ('der', der_encoder.encode), ('cer', cer_encoder.encode),
+                               ('native', native_encoder.encode)):
                 try:
-                    enc(v)
+                    enc(w)
                     ok = True
                 except error.PyAsn1Error:
                     ok = False
                 except Exception as ex:
-                    res.witness('constructed:foreign-exception:' + type(ex).__name__, feats, case, ex)
+                    res.witness('constructed:foreign-exception:' + type(ex).__name__, feats | {'codec:' + cname}, case, ex)
                     continue
                 res.see('constructed-encodes')
+                res.see('constructed-encodes:%s:%s' % (place, cname))
                 if ok and not inside:
-                    res.witness('constructed:encoder-accepts-violation', feats, case, '%d members, SIZE(%d..%d)' % (n, lo, hi))
+                    res.witness('constructed:encoder-accepts-violation', feats | {'codec:' + cname, 'members:%d' % min(n, 1)}, case,
+                                '%s: %d members, SIZE(%d..%d), %s' % (cname, n, lo, hi, place))
                 elif not ok and inside:
-                    res.witness('constructed:encoder-refuses-valid', feats, case, '%d members, SIZE(%d..%d)' % (n, lo, hi))
+                    res.witness('constructed:encoder-refuses-valid', feats | {'codec:' + cname}, case,
+                                '%s: %d members, SIZE(%d..%d), %s' % (cname, n, lo, hi, place))
                 else:
                     res.see('constructed-agree')
     else:
